@@ -27,7 +27,7 @@ def cases(tier, seed):
     out = []
     Ds = [1, 2, 4] if tier == 'quick' else [1, 2, 3, 4, 5, 7, 9]
     Ps = [1, 2] if tier == 'quick' else [1, 2, 3, 5]
-    kinds = ['random', 'integers', 'nonfinite', 'complex']
+    kinds = ['random', 'integers', 'nonfinite', 'complex', 'signedzero']
     for D in Ds:
         for P in Ps:
             for kind in kinds:
@@ -60,6 +60,10 @@ def _vals(rng, shape, kind):
         f[rng.integers(f.size)] = -0.0
         if f.size > 2:
             f[rng.integers(f.size)] = np.nan
+    if kind == 'signedzero' and v.size:
+        f = v.reshape(-1)
+        m = rng.random(size=f.size)
+        f[m < 0.25] = -0.0; f[(m >= 0.25) & (m < 0.4)] = 0.0          # zeros of both signs: conversions move bits, they do not compute
     if kind == 'complex':
         v = v + 1j * rng.normal(size=shape)
     return v
@@ -241,6 +245,12 @@ def _conv(ctx, p, rng):
         r2, c2 = int(rng.integers(1, 3)), int(rng.integers(1, 3))
         B = [[_vals(rng, (D, P, r1, c1), kind), _vals(rng, (D, P, r1, c2), kind)],
              [_vals(rng, (D, P, r2, c1), kind), _vals(rng, (D, P, r2, c2), kind)]]
+        if kind == 'integers':
+            # blocks of different dtype (an integer identity-like block, a single precision block next to double precision ones):
+            # the combined polynomial has the promoted dtype, as numpy.block has
+            B[0][0] = B[0][0].astype(np.int64)
+            B[1][1] = B[1][1].astype(np.float32)
+            B[0][1] = B[0][1] + 0.5; B[1][0] = B[1][0] + 0.25
         blocks = np.empty((2, 2), dtype=object)      # (a nested list is rejected by numpy.array inside the helper)
         for r_ in range(2):
             for c_ in range(2):
